@@ -172,6 +172,11 @@ func init() {
 						c.Fail("size-within-bounds-refused:"+k.String(), in, fmt.Sprint(errs))
 					case !ok && len(errs) == 0:
 						c.Fail("size-outside-bounds-accepted:"+k.String(), in, fmt.Sprintf("count %d accepted", actual))
+					case !ok:
+						// however the declaration is laid out, it starts at the '[' on line 2
+						if !errorAt(errs, 2, 2+len(k.String())) {
+							c.Fail("size-error-not-at-declaration", in, fmt.Sprintf("errors %v; want one at Ln %d, Col %d", errs, 2, 2+len(k.String())))
+						}
 					}
 					// an ASCII variable keeps the bounds written this way
 					if k == ref.A && form == 1 && a <= b {
@@ -186,6 +191,43 @@ func init() {
 						}
 					}
 					c.Case(0, true, map[bool]string{true: "accepted", false: "refused"}[ok])
+				}})
+			// a violated declaration that comes after other (satisfied) items, in the same or in an earlier message, written
+			// in various layouts: the error is reported at ITS '[' (line and column computed from the text)
+			earlier := []string{"<U1[2] 1 2>", "<U1[\n2\n] 1 2>", "<A[1\n..\n3] \"ab\">", "<A[\n2..\n] v1>", "<L[\n1\n] <B 1>>", "<B[ 2 ]\n1 2>", "// [9]\n<U1 1>",
+				"<A \"a\" 0x0A\n\"b\">", "<L[2]\n<F4[\r\n1] 1.5>\n<A[..\n8] v2>\n>", "<BOOLEAN[..2\n] T>"}
+			violated := []string{"<U1[3] 1>", "<A[2] \"abc\">", "<L[1]>", "<B[..1] 1 2>", "<I2 [2..3] 1>", "<L[3..] <U1 1>>"}
+			sp = append(sp, h.Space{Name: "violated-declaration-after-earlier-items", Count: product(len(earlier), len(violated), 3),
+				Describe: func(i uint64) interface{} {
+					d := unrank(i, len(earlier), len(violated), 3)
+					return fmt.Sprintf("%q then %q, arrangement %d", earlier[d[0]], violated[d[1]], d[2])
+				},
+				Run: func(c *h.Ctx, i uint64) {
+					d := unrank(i, len(earlier), len(violated), 3)
+					e, v := earlier[d[0]], violated[d[1]]
+					var text string
+					switch d[2] {
+					case 0:
+						text = "S1F1 W\n<L\n  " + e + "\n  " + v + "\n>\n."
+					case 1:
+						text = "S1F1 W\n" + e + "\n.\nS1F2\n" + v + "\n."
+					default:
+						text = "S1F1 W <L " + e + " " + e + " " + v + ">."
+					}
+					off := strings.LastIndex(text, v) + strings.Index(v, "[")
+					wl, wc := ref.LineCol(text, off)
+					_, errs, _, pan := smlRun(text)
+					c.Ops(1)
+					in := "sml.Parse(" + strconv.Quote(text) + ")"
+					switch {
+					case pan != "":
+						c.Fail("panic", in, pan)
+					case len(errs) == 0:
+						c.Fail("size-outside-bounds-accepted:after-earlier-items", in, "accepted")
+					case !errorAt(errs, wl, wc):
+						c.Fail("size-error-not-at-declaration", in, fmt.Sprintf("errors %v; want one at Ln %d, Col %d", errs, wl, wc))
+					}
+					c.Case(0, true, "refused")
 				}})
 			// sized lists around sized items: every level is checked against its OWN declaration
 			sp = append(sp, h.Space{Name: "nested-declarations", Count: product(4, 4, 4, 4, 3),
@@ -542,4 +584,14 @@ func listChild(l *ast.ListNode, i int) *ast.ASCIINode {
 	}
 	a, _ := vals.Index(i).Interface().(*ast.ASCIINode)
 	return a
+}
+
+// errorAt reports whether one of the diagnostics is positioned at the given line and column.
+func errorAt(errs []string, line, col int) bool {
+	for _, e := range errs {
+		if l, cc, good := diagPos(e); good && l == line && cc == col {
+			return true
+		}
+	}
+	return false
 }
